@@ -188,6 +188,8 @@ def harnesses(tier):
         out.append(vec(t, 2, "scalar", timeout=60))
         out.append(vec(t, 2, "none", split=True))
     slots = [t for t in cat.slot() if _fillable(t)]
+    if tier == "thorough":
+        slots = slots[::2]
     if tier == "quick":
         slots = [t for i, t in enumerate(slots) if i % 6 == 5]
     big = 60 if tier == "quick" else 240
